@@ -45,6 +45,12 @@ claim("C06",
       STATIC_NOTE + "Handler processes messages sequentially under its mutex (C17). Not decided: collision resistance of the hash.",
       "DESIGN.md §4 C06")
 
+claim("C09",
+      "completeness rule on round.NewSession (every Info field / session id / auxiliary item written into the hash whose Sum is the SSID), argument rule on the CMP NewSession call sites, protocol-id constant uniqueness, guard inventory + action-dominance on CanAccept/Accept, writer-shape rule for the tag's encoders, per-party context rule (HashForID(msg.From) / HashForID(SelfID()) at every verify/prove site of the multi-party rounds)",
+      "Decides for every pair of sessions and every replayed message the mechanisms that separate them: what enters the session tag (and that key material, message and presignature id do for CMP), that the tag's encoders are injective, that protocol ids do not collide across packages, that the header filter keeps all its comparisons and gates every action of Accept, and that every proof/commitment is made and checked under the hash of its own prover. Right level: separation is a which-data-is-hashed / which-guard-gates question; only collision resistance remains.",
+      STATIC_NOTE + "Not decided: collision resistance.",
+      "DESIGN.md §4 C09")
+
 for p, why in {
     "C01": "not built yet", "C02": "not built yet", "C03": "not built yet", "C04": "not built yet", "C05": "not built yet",
     "C06": "not built yet", "C07": "not built yet", "C08": "not built yet", "C09": "not built yet", "C10": "not built yet",
